@@ -67,6 +67,10 @@ func runPure(rng *rand.Rand, n int, out *Out, args []string) {
 			out.Case("DifficultyToPlasma", U64(d), U64(vm.DifficultyToPlasma(d)), "boundary-mix")
 			d = 141750000 + uint64(rng.Intn(7)) - 3
 			out.Case("DifficultyToPlasma", U64(d), U64(vm.DifficultyToPlasma(d)), "around-max")
+			// plasma earned by proof-of-work is bounded per block whatever difficulty is claimed
+			for _, x := range []uint64{d, BoundaryU64(rng), 141750000 + uint64(rng.Int63n(1<<40)), ^uint64(0) - uint64(rng.Intn(1000))} {
+				out.Oracle(vm.DifficultyToPlasma(x) <= constants.MaxPoWPlasmaForAccountBlock, "pow-plasma-within-per-block-maximum", M{"difficulty": x, "plasma": vm.DifficultyToPlasma(x)})
+			}
 		}
 		if want(args, "GetDifficultyForPlasma") {
 			p := BoundaryU64(rng)
